@@ -288,24 +288,50 @@ func c11(c *ctx) {
 			}
 		}
 	}
-	for ri, req := range []string{reqs["plain"], reqs["long"], reqs["bad"]} {
+	type dreq struct {
+		name, req string
+		rb        int
+	}
+	dreqs := []dreq{{"plain", reqs["plain"], 0}, {"long", reqs["long"], 0}, {"bad", reqs["bad"], 0}}
+	// a header line whose length sweeps across the read-buffer size and its multiples (the line
+	// "X-Pad: ppp..." is lineLen bytes long without its CRLF)
+	padded := func(lineLen int) string {
+		return "GET /x HTTP/1.1\r\nHost: h\r\nUpgrade: websocket\r\nConnection: Upgrade\r\nX-Pad: " + strings.Repeat("p", lineLen-7) +
+			"\r\nSec-WebSocket-Version: 13\r\nSec-WebSocket-Protocol: chat\r\nSec-WebSocket-Key: dGhlIHNhbXBsZSBub25jZQ==\r\n\r\n"
+	}
+	for _, rb := range []int{16, 32, 64} {
+		for lineLen := 8; lineLen <= 2*rb+3; lineLen++ {
+			dreqs = append(dreqs, dreq{fmt.Sprintf("pad%d", lineLen), padded(lineLen), rb})
+		}
+	}
+	for lineLen := 4090; lineLen <= 4100; lineLen++ {
+		dreqs = append(dreqs, dreq{fmt.Sprintf("pad%d", lineLen), padded(lineLen), 0})
+	}
+	for lineLen := 8188; lineLen <= 8194; lineLen++ {
+		dreqs = append(dreqs, dreq{fmt.Sprintf("pad%d", lineLen), padded(lineLen), 0})
+	}
+	for ri, dr := range dreqs {
+		req := dr.req
 		for _, ch := range [][]int{nil, {1}, {7}} {
-			key := fmt.Sprintf("debug/upgrader/%d/%v", ri, ch)
+			key := fmt.Sprintf("debug/upgrader/%d/%s/%d/%v", ri, dr.name, dr.rb, ch)
 			if !vh.Only(key) {
 				continue
 			}
 			var gotReq, gotResp []byte
 			calls := 0
-			du := wsutil.DebugUpgrader{Upgrader: ws.Upgrader{Protocol: func(p []byte) bool { return string(p) == "chat" }},
+			mkU := func() ws.Upgrader {
+				return ws.Upgrader{ReadBufferSize: dr.rb, Protocol: func(p []byte) bool { return string(p) == "chat" }}
+			}
+			du := wsutil.DebugUpgrader{Upgrader: mkU(),
 				OnRequest: func(b []byte) { gotReq = append([]byte(nil), b...); calls++ }, OnResponse: func(b []byte) { gotResp = append([]byte(nil), b...) }}
 			// (a client must not send frames before it has the response, so nothing follows the request)
 			rw := &rwBuf{r: &vh.ChunkReader{Data: []byte(req), Sizes: ch}}
 			hs, err := du.Upgrade(rw)
 			plain := &rwBuf{r: bytes.NewReader([]byte(req))}
-			hs2, err2 := ws.Upgrader{Protocol: func(p []byte) bool { return string(p) == "chat" }}.Upgrade(plain)
+			hs2, err2 := mkU().Upgrade(plain)
 			emit(map[string]interface{}{"k": "debug", "key": key, "reqEq": bytes.Equal(gotReq, []byte(req)), "respEq": bytes.Equal(gotResp, rw.w.Bytes()),
 				"sameOutcome": (err == nil) == (err2 == nil) && hs.Protocol == hs2.Protocol && bytes.Equal(rw.w.Bytes(), plain.w.Bytes()),
-				"trailingOK":  true, "calls": calls}, fmt.Sprintf("debug/upgrader/%d", ri))
+				"trailingOK":  true, "calls": calls}, fmt.Sprintf("debug/upgrader/%s/%d", dr.name[:3], dr.rb))
 		}
 	}
 	meta.Evaluations = n
